@@ -42,11 +42,11 @@ def _rand_matrix(rng, m, n, kind):
         if min(m, n) > 1:
             r = min(r, min(m, n) - 1)
         A = rng.standard_normal((m, r)) @ rng.standard_normal((r, n))
-    elif kind == "zerorow":
+    elif kind == "zerorow" and m >= 2:
         k = int(rng.integers(0, m))
         A[k, :] = 0.0
         if m > 2 and rng.integers(0, 2):
-            A[int(rng.integers(0, m)), :] = 0.0
+            A[(k + 1) % m, :] = 0.0
     elif kind == "scaledid":
         A = np.zeros((m, n))
         c = float(rng.uniform(0.5, 2.0))
